@@ -105,7 +105,7 @@ mod k {
         let se = src.as_el();
         let sa: Af = se.into();
         match dst {
-            Obj::E(e) => match which % 14 {
+            Obj::E(e) => match which % 15 {
                 0 => { *e += se; ("E += E", c.add(dm, sm)) }
                 1 => { *e += &se; ("E += &E", c.add(dm, sm)) }
                 2 => { *e += sa; ("E += A", c.add(dm, sm)) }
@@ -119,7 +119,8 @@ mod k {
                 10 => { e.double_in_place(); ("E.double_in_place()", c.double(dm)) }
                 11 => { *e = -*e; ("E = -E", c.neg(dm)) }
                 12 => { let copy = *e; *e += copy; ("E += itself", c.double(dm)) }
-                _ => { let copy = *e; *e -= &copy; ("E -= &itself", c.identity()) }
+                13 => { let copy = *e; *e -= &copy; ("E -= &itself", c.identity()) }
+                _ => { Zero::set_zero(e); ("Zero::set_zero(E)", c.identity()) }
             },
             Obj::A(a) => match which % 9 {
                 0 => { *a += sa; ("A += A", c.add(dm, sm)) }
